@@ -85,6 +85,16 @@ def gen_riscv(r):
         stride = r.choice([4, 8, 16, 32, 64, 128])
         slots = [stride * i for i in range(r.randint(3, 7))]
         body = ["lui s0, 4", f"addi t0, zero, {r.randint(1, 99)}"]
+        # optionally an initialised data segment (a string directly followed by words/bytes: the terminator and the
+        # next variable share a block) that the program reads through labels and prints with ecall 4
+        data = []
+        if r.random() < 0.5:
+            data.append(f's: .string "{r.choice(["a", "ab", "abc", "Hello", "0123456", ""])}"')
+            for i in range(r.randint(1, 3)):
+                t = r.choice(["word", "word", "half", "byte"])
+                data.append(f"d{i}: .{t} " + ", ".join(str(r.choice([1234, 8, 255, 77, 65535, r.randint(1, 99999)])) for _ in range(r.randint(1, 5))))
+            if r.random() < 0.3:
+                data.append('s2: .string "xy"')
         loop = r.random() < 0.4
         if loop:
             body += [f"li t2, {r.randint(2, 4)}", "again:"]
@@ -97,10 +107,26 @@ def gen_riscv(r):
                 w = r.choice(['sw', 'sw', 'sh', 'sb'])
                 a = off - off % (4 if w == 'sw' else 2 if w == 'sh' else 1)
                 body.append(f"{w} {r.choice(['t0', 't1', 'a0'])}, {a}(s0)")
-            else:
+            elif c < 0.90:
                 body.append(f"addi t0, t0, {r.randint(1, 9)}")
+            elif c < 0.95 or not data:
+                # print the bytes at a slot as a string: uncounted byte reads through the cache (fills, evictions)
+                body += [f"addi a0, s0, {off - off % 4}", "addi a7, zero, 4", "ecall"]
+            else:
+                nvar = len([d for d in data if d.startswith("d")])
+                k2 = r.random()
+                if k2 < 0.4:
+                    body.append(f"{r.choice(['lw', 'lh', 'lbu'])} {r.choice(['t1', 'a1', 'x6'])}, d{r.randrange(nvar)}{r.choice(['', '[0]', '[1]'])}")
+                elif k2 < 0.6:
+                    body.append(f"{r.choice(['sw', 'sh', 'sb'])} t0, d{r.randrange(nvar)}{r.choice(['', '[0]', '[1]'])}, a2")
+                else:
+                    body += [f"la a0, {r.choice(['s', 's', 's2'] if any(d.startswith('s2') for d in data) else ['s'])}", "addi a7, zero, 4", "ecall"]
         if loop:
             body += ["addi t2, t2, -1", "bne t2, zero, again"]
+        if data:
+            if r.random() < 0.5:
+                return "\n".join([".data"] + data + [".text"] + body) + "\n"
+            return "\n".join([".text"] + body + [".data"] + data) + "\n"
         return "\n".join(body) + "\n"
     lines = []
     data = []
